@@ -109,6 +109,9 @@ def nested_layouts(L):
                 yield [["len", long_start, long_len], nested, after]
                 yield [["len", long_start, long_len], nested, before]
                 yield [["len", long_start, long_len], nested, before, after]
+                # and an unrelated gene far from all of them (what an ordered scan meets first on its way round)
+                yield [["len", long_start, long_len], nested, after, long_start + long_len + 14]
+                yield [["len", long_start, long_len], nested, before, long_start + long_len + 14]
 
 
 def run_pipeline(world, hits, rules_spec):
